@@ -132,6 +132,9 @@ func scenarioStart(c *hlib.RunCtx) *hlib.Violation {
 		os.WriteFile(tokenPath, nil, 0666)
 		if tokenState == 1 {
 			tokenAge = time.Duration(t.Draw(12*60)) * time.Minute // at most 12 h old
+			if t.Bool(1, 3) {
+				tokenAge = 24*time.Hour - 2*time.Minute - time.Duration(t.Draw(12*60))*time.Minute // up to just under the period
+			}
 		} else {
 			tokenAge = 24*time.Hour + time.Duration(t.Draw(3*24*60))*time.Minute - time.Duration(t.Draw(2))*time.Nanosecond
 			if t.Bool(1, 4) {
@@ -177,6 +180,25 @@ func scenarioStart(c *hlib.RunCtx) *hlib.Violation {
 			}
 		}
 		return nil
+	}
+
+	// One file-system call of the run may fail (the token's stat, its exclusive
+	// creation, the removal of a stale token, the mode file's read, ...).
+	if t.Bool(1, 5) {
+		failIdx := t.Draw(60)
+		errno := []syscall.Errno{syscall.EACCES, syscall.EIO, syscall.ENOSPC, syscall.EROFS, syscall.EMFILE, syscall.ENOENT}[t.Draw(6)]
+		s.FaultFn = func(c *simrt.FsCall) error {
+			if c.Idx == failIdx {
+				if strings.HasSuffix(c.Path, "/mode") && mode == "off" {
+					// an unreadable mode file behaves as local (C02): for this run
+					// the recorded mode is not what every reader saw
+					mode = "off-but-unreadable-once"
+				}
+				return errno
+			}
+			return nil
+		}
+		s.Probe("one-call-fails")
 	}
 
 	info := map[*simrt.Proc]*starter{}
@@ -256,12 +278,16 @@ func scenarioStart(c *hlib.RunCtx) *hlib.Violation {
 				fail("write-in-off", "mode is off but process %d performed %s on %s", fc.Proc.ID, fc.Op, fc.Path)
 			}
 			// a child must have rewritten its marker before anything else runs
-			if st := info[fc.Proc]; st != nil && st.marker == "1" && fc.Proc.Env[telemetryChildVar] == "1" && fc.Op != "readfile" {
-				_ = st
+			// a process in the sidecar's role rewrites its marker before it touches
+			// the file system or starts anything (a process it starts meanwhile
+			// would take itself for the sidecar)
+			if st := info[fc.Proc]; st != nil && st.marker == "1" && fc.Proc.Env[telemetryChildVar] == "1" {
+				fail("acts-before-marker-rewrite", "process %d runs as the telemetry child and performed %s on %s while its marker was still 1", fc.Proc.ID, fc.Op, fc.Path)
 			}
 		}
 	}
 
+	within := 24*time.Hour - 90*time.Second - tokenAge // what is left of the token period (within24h family)
 	before := dirHash(tele)
 	n := 2 + t.Draw(7)
 	var desc []string
@@ -295,7 +321,18 @@ func scenarioStart(c *hlib.RunCtx) *hlib.Violation {
 			s.RunSolo(s.Tasks[len(s.Tasks)-1], 1+t.Draw(40))
 			s.Advance(time.Duration(t.Draw(30)) * time.Hour)
 		} else if t.Bool(1, 3) {
-			s.Advance(time.Duration(t.Draw(50)) * time.Minute)
+			d := time.Duration(t.Draw(50)) * time.Minute
+			if family == "within24h" {
+				// the whole run stays inside one token period, but may use all of it
+				if t.Bool(1, 3) && within > time.Minute {
+					d = time.Duration(t.Draw(int(within / time.Minute))) * time.Minute
+				}
+				if d > within {
+					d = within
+				}
+				within -= d
+			}
+			s.Advance(d)
 		}
 	}
 	switch t.Draw(4) {
